@@ -325,7 +325,7 @@ fn drive(sim: &mut Sim, prof: &Profile, rng: &mut Rng, rep: &mut Report, ctype: 
 	for _s in 0..prof.steps {
 		sim.w.step += 1;
 		let pw = if prof.pay_workload { 1 } else { 0 };
-		let act = rng.weighted(&[40, 14, 10, 8, 8, 8, 2, 3, 2, 1, 2, 2, 1, 2, 1, 1, if prof.allow_restart { 2 } else { 0 }, 5 * pw, 4 * pw, 2 * pw, 3 * pw]);
+		let act = rng.weighted(&[40, 14, 10, 8, 8, 8, 2, 3, 2, 1, 2, 2, 1, 2, 1, 1, if prof.allow_restart { 2 } else { 0 }, 5 * pw, 4 * pw, 2 * pw, 3 * pw, if prof.multi_hop { 2 * pw } else { 0 }]);
 		match act {
 			0 => {
 				// deliver one message from a random non-empty queue
@@ -729,6 +729,76 @@ fn drive(sim: &mut Sim, prof: &Profile, rng: &mut Rng, rep: &mut Report, ctype: 
 					if p.parts.iter().all(|(cs, _)| cs.iter().all(|c| !sim.w.chans[*c].closed)) && !sim.w.nodes[p.src].persister.dead.load(Ordering::SeqCst) {
 						sim.w.note(format!("DUP-SEND payment#{} again under the same id", k));
 						sim.w.dup_send(k);
+					}
+				}
+			},
+			21 => {
+				// forward burst: several payments across the line over random parallel channels reach the recipient,
+				// which then claims them all at once; the fulfils travel back under the random scheduler (monitor
+				// writes of the forwarder completing in any order)
+				let (src, dst) = if rng.chance(1, 2) { (0, n - 1) } else { (n - 1, 0) };
+				let k = 2 + rng.below(3);
+				let mut sent = 0;
+				for _ in 0..k {
+					let mut chans = vec![];
+					let mut cur = src;
+					while cur != dst {
+						let next = if dst > cur { cur + 1 } else { cur - 1 };
+						let c: Vec<usize> = sim.w.chan_between(cur, next).into_iter().filter(|c| !sim.w.chans[*c].closed && sim.w.chans[*c].ready).collect();
+						if c.is_empty() {
+							chans.clear();
+							break;
+						}
+						chans.push(*rng.pick(&c));
+						cur = next;
+					}
+					if chans.len() < 2 {
+						break;
+					}
+					let cid = sim.w.chans[chans[0]].chan_id();
+					let hi = sim.w.nodes[src].mgr.list_usable_channels().into_iter().find(|c| c.channel_id == cid).map(|d| d.next_outbound_htlc_limit_msat).unwrap_or(0);
+					if hi < 3_000_000 {
+						continue;
+					}
+					let amt = 1_000_000 + rng.below(hi / 10);
+					if sim.w.send_payment_ex(src, &[(chans, amt)], 80, crate::sim::SendOpts { class: "burst", ..Default::default() }, None).is_ok() {
+						sent += 1;
+					}
+				}
+				if sent >= 2 {
+					sim.w.note(format!("FORWARD-BURST {} payments node{}->node{}, then the recipient claims them all", sent, src, dst));
+					let ok = sim.w.settle(40);
+					sim.dispatch(rep);
+					if ok {
+						rep.count("settle_points_reached");
+						sim.settled(rep);
+						rep.count("forward_bursts");
+						// the forwarder's monitor writes complete newest-first for a while
+						if prof.allow_async && n == 3 && !async_on[1] && rng.chance(2, 3) {
+							async_on[1] = true;
+							sim.w.nodes[1].persister.async_mode.store(true, Ordering::SeqCst);
+							sim.w.note("ASYNC node1 persister now returns InProgress".to_string());
+						}
+						while let Some(pos) = sim.w.claimable.iter().position(|c| c.node == dst) {
+							sim.w.claim(pos);
+						}
+						if async_on.get(1).cloned().unwrap_or(false) && rng.chance(2, 3) {
+							for _ in 0..(10 + rng.below(30)) {
+								sim.w.deliver_all(3);
+								for k in 0..n {
+									sim.w.process_events(k);
+								}
+								let pend = sim.w.nodes[1].persister.pending().len();
+								if pend > 0 {
+									let pos = if rng.chance(3, 4) { pend - 1 } else { rng.below(pend as u64) as usize };
+									sim.w.complete_update(1, pos);
+								}
+								sim.dispatch(rep);
+								if !sim.raised.is_empty() {
+									break;
+								}
+							}
+						}
 					}
 				}
 			},
